@@ -160,8 +160,18 @@ def refresh_tables():
 # Coq
 
 def run_translator():
-    rc, out = sh([sys.executable, os.path.join(VERIF, "translator", "gen_tables.py"), os.path.join(BUILD, "tables.json")])
-    return rc == 0, out
+    """Runs every translator/gen_*.py (each regenerates one coq/theories/Gen*.v from /repo's
+    current source; gen_tables.py writes Generated.v)."""
+    ok = True
+    outs = []
+    tdir = os.path.join(VERIF, "translator")
+    for fn in sorted(os.listdir(tdir)):
+        if fn.startswith("gen_") and fn.endswith(".py"):
+            rc, out = sh([sys.executable, os.path.join(tdir, fn), os.path.join(BUILD, "tables.json")],
+                         env={"VERIF_REPO": REPO})
+            outs.append(out.strip())
+            ok = ok and rc == 0
+    return ok, "\n".join(o for o in outs if o)
 
 
 def write_coqproject():
